@@ -43,7 +43,7 @@ SIDE_B = {"+": 0, "-": 1}  # ... b ob: '+' enters b through its start
 def budget(tier):
     if tier == "quick":
         return {"examples": 800, "shards": 2, "machine_examples": 300, "steps": 30}
-    return {"examples": 3000, "shards": 16, "machine_examples": 1500, "steps": 50}
+    return {"examples": 6000, "shards": 16, "machine_examples": 4000, "steps": 50}
 
 
 # ------------------------------------------------------------------------------------------
